@@ -173,3 +173,7 @@ def run_case(line: str) -> str:
         if want != got:
             return f"tokenizer-mismatch/{hx(ln)}/{got}/{want}"
     return " ".join(out)
+
+
+import verbosity  # noqa: E402
+run_case = verbosity.wrap(run_case)   # one case in eight runs at Verbosity.CHANNEL
